@@ -98,6 +98,7 @@ class RefRow:
 
 class C08(PropBase):
     id = "C08"
+    shown_columns = ('LATITUDE', 'LONGITUDE', 'DIST')
     corr_fields = ['lat', 'lon', 'dist', 'cpr', 'cprage', 'posage']
     lean_modules = ["SqModel.Props.C08", "SqModel.Props.C08Math", "SqModel.Proofs.Dispatch", "SqModel.Proofs.Bridge", "SqModel.Proofs.BridgeCpr", "SqModel.Proofs.BridgePlane"]
     extractors = ["nl", "dispatch", "trans"]
